@@ -13,6 +13,7 @@ import numpy as np
 from symx.explore import Harness
 from symx import load
 from harness import common
+from harness import shared
 
 BOUNDS = {
     "quick": {"entries per input": "2 + 2 (location ids, lead times, times), also 2 + 1", "other dims": "singletons"},
@@ -211,6 +212,7 @@ def harnesses(tier):
     thorough = tier == "thorough"
     p, q = (3, 3) if thorough else (2, 2)
     hs = [Harness("text_rows", h_text_rows(3 if thorough else 2), "permuted rows of a text file give the same dataset")]
+    hs.append(Harness("threshold_layouts", shared.h_threshold_layouts(2, 1), "inputs storing different threshold columns: each reads its own column"))
     for dim in ("location", "leadtime", "time"):
         hs.append(Harness("match.%s" % dim, h_match(dim, p, q), "symbolic %s coordinates, %d + %d entries" % (dim, p, q)))
         hs.append(Harness("match.%s.uneven" % dim, h_match(dim, p, q - 1), "symbolic %s coordinates, %d + %d entries" % (dim, p, q - 1)))
